@@ -1,6 +1,7 @@
 package lib
 
 import (
+	"encoding/hex"
 	"fmt"
 	"math/big"
 	"sync"
@@ -8,6 +9,8 @@ import (
 
 	sdkmath "cosmossdk.io/math"
 	tmproto "github.com/cometbft/cometbft/proto/tendermint/types"
+	"github.com/cosmos/cosmos-sdk/store/rootmulti"
+	storetypes "github.com/cosmos/cosmos-sdk/store/types"
 	sdk "github.com/cosmos/cosmos-sdk/types"
 
 	"github.com/kava-labs/kava/app"
@@ -76,3 +79,26 @@ func Atomically(ctx sdk.Context, f func(ctx sdk.Context) error) (cls Class, err 
 func BI(x sdkmath.Int) *big.Int { return x.BigInt() }
 
 func Pow10(n int) *big.Int { return new(big.Int).Exp(big.NewInt(10), big.NewInt(int64(n)), nil) }
+
+// DumpStores returns, for every named KV store of the app's multistore, all
+// key/value pairs (hex) as seen by ctx.
+func DumpStores(tApp app.TestApp, ctx sdk.Context, only map[string]bool) map[string]map[string]string {
+	byName := tApp.CommitMultiStore().(*rootmulti.Store).StoreKeysByName()
+	out := map[string]map[string]string{}
+	for name, key := range byName {
+		if only != nil && !only[name] {
+			continue
+		}
+		if _, ok := key.(*storetypes.KVStoreKey); !ok {
+			continue
+		}
+		m := map[string]string{}
+		it := ctx.KVStore(key).Iterator(nil, nil)
+		for ; it.Valid(); it.Next() {
+			m[hex.EncodeToString(it.Key())] = hex.EncodeToString(it.Value())
+		}
+		it.Close()
+		out[name] = m
+	}
+	return out
+}
